@@ -857,7 +857,28 @@ def parse_text_stream(ctx, rng):
             cases.append((m, c.entry, c.flags, None))
         if rng.random() < 0.3 and c.text:
             cases.append((c.text[: rng.randrange(len(c.text))], c.entry, c.flags, None))
-    hand = ['{a}', '{ a(b: "\xe9") }  ', '# \xe9\n{a}\n', '{a} # \U0001F600', '\ufeff{ a }\ufeff', 'query Q($v: Int = 1e05) { a(b: $v) }',
+    # keyword-position classes that must be present in EVERY run, under every flag combination (seed C01-4: a directive
+    # location that is a Name but not a location, with no_location=True): corpus + generated variants
+    from common import CORPUS
+    corpus_parse = []
+    for pth in sorted((CORPUS / "C01").glob("*.json")):
+        try:
+            corpus_parse += [from_cps(x) if isinstance(x, list) else x for x in json.loads(pth.read_text()).get("parse_texts", [])]
+        except Exception:  # noqa
+            pass
+    bad_names = ["Query", "query", "field", "on", "true", "null", "SCHEMA_", "Field", "x"]
+    good = ["QUERY", "FIELD", "SCHEMA", "ENUM_VALUE", "INPUT_FIELD_DEFINITION"]
+    gen_kw = []
+    for _ in range(ctx.n(12, 120)):
+        locs = [rng.choice(good) for _ in range(rng.choice([0, 1, 2]))]
+        locs.insert(rng.randrange(len(locs) + 1), rng.choice(bad_names))
+        gen_kw.append("%sdirective @%s%s on %s%s" % (rng.choice(["", '"d" ', "# c\n"]), gen_name(rng), rng.choice(["", "(a: Int)", "(a: Int = 1, b: [S!])"]),
+                                                  rng.choice(["", "| "]), " | ".join(locs)))
+    for t in corpus_parse + gen_kw:
+        for fl in PP.FLAG_COMBOS:
+            cases.append((t, "document", fl, None))
+    hand = ['directive @a on Query', 'directive @a on FIELD | Query', 'directive @a on | foo', 'directive @a(b: Int) on QUERY | query',
+            'directive @a on on', 'directive @a on true', 'directive @a on', '{a}', '{ a(b: "\xe9") }  ', '# \xe9\n{a}\n', '{a} # \U0001F600', '\ufeff{ a }\ufeff', 'query Q($v: Int = 1e05) { a(b: $v) }',
             '{ a(b: "\\u00e9\\n") }', '{ a(b: """\n  x\n   \n    y\n""") }', '{ a(b: \u0663) }', '{ a\u0663 }', '{ a(b: "\\u0663\u0662\u0661\u0660") }',
             '{ a }\r# second operation\rquery Q { b }\r', '{\r  a # one\r  b\n}', 'query Q { a } # end', '{ a #\x01\n }', '# c\r{ a }',
             'query Q { a }\r# c\rfragment F on T { b }\r#', '{ a(b: 1 # c\r c: 2) }',
